@@ -80,11 +80,16 @@ class Component:
     def init_attr(self, name: str) -> Optional[Term]:
         """Constructor term stored into self.<name> by __init__ (first configuration that stores it)."""
         for ex in self.init_configs:
+            # constructor parameters stored as attributes: `self.depth = depth` lets terms be read in terms of self.depth
+            pmap = {}
+            for st in ex.of(Store):
+                if st.target[0] == "a" and st.target[1] == ("self",) and st.value[0] == "p":
+                    pmap.setdefault(st.value, st.target)
             for st in ex.of(Store):
                 if st.target == ("a", ("self",), name):
                     v = st.value
                     o = ex.obj(v)
-                    return o.ctor if o is not None else v
+                    return subst(o.ctor if o is not None else v, pmap)
         return None
 
     def require_modelled(self, rule: str):
